@@ -6,7 +6,7 @@ import random as _stdlib_random
 
 from ..loader import norm, full, walk_local, walk_local_ordered, qualname_of, dump_name
 from .. import util as U
-from .c05 import roots_of
+from .c05 import roots_of, rule_exact
 
 EXPLANATION = (
     'Both branches of every RT/NRT mode switch in the clocks are extracted and compared after normalisation (the '
@@ -339,6 +339,7 @@ def rule_det(ctx):
 def run(ctx):
     rule_mode(ctx)
     rule_wake(ctx)
+    rule_exact(ctx, 'C10.exact')
     rule_rng(ctx)
     rule_det(ctx)
     ctx.trust('signatures of the running interpreter\'s random.Random (stdlib, not sc3) for the arity check')
@@ -374,6 +375,8 @@ MUTANTS = [
          old="    def quit_all(cls, watch_shutdown=True):", new="    def _notify_all(cls):\n        for server in cls.all:\n            server.addr.send_msg('/notify', 1)\n\n    def quit_all(cls, watch_shutdown=True):"),
     dict(rule='C10.det', name='(fix reverted) allocator draws from list(set)', file='sc3/synth/_engine.py',
          old="            return bi.choice(sorted(self._freed[n], key=lambda x: x.start))", new="            return bi.choice(list(self._freed[n]))"),
+    dict(rule='C10.exact', name='NRT queue rounds the time (RT queues do not)', file='sc3/base/clock.py',
+         old="        self.queue.add(time, clock_task)", new="        self.queue.add(round(time, 9), clock_task)"),
 ]
 
 REPAIRS = []
